@@ -197,9 +197,9 @@ def run(model, col, tier):
     sub = Collector("C13")
     c13.run(model, sub, "quick")
     for ob in sub.obligations:
-        if ob.rule == "R13.5":
-            ob.rule = "R05.8"
-            col.obligations.append(ob)
+        # the validation passes are the fence in front of lowering: their discipline (R13.5) and everything they must reject
+        ob.rule = "R05.8"
+        col.obligations.append(ob)
     # ---------------- R05.9 ------------------------------------------------------
     sub = Collector("C04")
     c04.run(model, sub, "quick")
@@ -207,5 +207,12 @@ def run(model, col, tier):
         if ob.rule in ("R04.5", "R04.6", "R04.8"):
             ob.rule = "R05.9"
             col.obligations.append(ob)
-    c02.check_operand_protocol(model, col, "R05.9")
-    c02.check_pool_key(model, col, "R05.9")
+    sub = Collector("C02")
+    c02.run(model, sub, "quick")
+    for ob in sub.obligations:
+        if ob.rule in ("R02.1", "R02.2", "R02.3", "R02.4", "R02.6", "R02.8", "R02.9"):
+            ob.rule = "R05.9"
+            col.obligations.append(ob)
+    from . import c10
+
+    c10.check_compat_guards(model, col, "R05.9")
